@@ -22,7 +22,9 @@ func RouteUDP(bindFunc func() (*net.UDPConn, error), streamTimeout time.Duration
 	streams := make(map[string]*mux.Stream)
 	var streamsMutex sync.Mutex
 
-	data := make([]byte, 8192)
+	// large enough for any UDP payload: a datagram must reach stream.Write whole, which sends it as one
+	// message or refuses it; a shorter buffer would have the kernel silently cut the datagram to its size
+	data := make([]byte, 65536)
 	for {
 		i, addr, err := localConn.ReadFrom(data)
 		if err != nil {
